@@ -322,7 +322,9 @@ def typeOsc (inputKeys : List Nat) (osc : Nat) : List OsEv :=
 
 /-- The condition of `maybe_press_sft_during_activation` / `maybe_release_sft_during_activation`. -/
 def sftDuring (s : Zchd) (released : Bool) : Bool :=
-  !s.capsWord && (released || (!s.lsft && !s.rsft))
+  -- (PENDING-2; before: `!s.capsWord && (released || (!s.lsft && !s.rsft))` - under caps-word an
+  -- upper-case output got no shift at all when caps-word was not holding one)
+  (!s.lsft && !s.rsft) || (!s.capsWord && released)
 
 /-- The body of the `for key_to_send in …` loop for one output (without the counter update). -/
 def sendOne (s : Zchd) (released : Bool) (o : ZchOut) : List OsEv :=
